@@ -1,5 +1,6 @@
 /-
-  C04: validation of the hypothesis `TokText` by evaluation of the model.
+  C04: cross-check of the statement `TokText` (proved in `TokTextProof.lean`) by evaluation of
+  the model.
 
   `chkRun` is `parserRun` with one change: the token source checks `ttOK line t` on every token it
   delivers (`line` read from the tape the tokenizer reads) and raises a marked exception when the
@@ -92,5 +93,46 @@ def report (l : List String) : Nat × Nat × List (String × List String) :=
 
 #eval report corpus
 #eval report gridInputs
+
+/-! ## second grid, and the witnesses against the first version of the relation
+
+  `TokText` is now PROVED (`Props/C04/TokTextProof.lean`); the evaluation stays as a cross-check of
+  the statement.  `gridInputs2`: all strings of length ≤ 4 over `a < ; \ ⏎ $ " ( ) backquote` that
+  contain a backslash (the first grid had no double quote and no parentheses, which is why it
+  missed the witnesses below).  `oldFailing`: the first version of the relation
+  (`stripContinuations sl == stripContinuations v ++ r`, `wordPathV v := !(v.all isBreakChar)`)
+  FAILS on the three witnesses; the corrected relation holds on them. -/
+
+def gridAlpha2 : List Char := ['a', '<', ';', '\\', '\n', '$', '"', '(', ')', '`']
+def gridM : Nat → List (List Char)
+  | 0 => [[]]
+  | n+1 => (gridM n).flatMap fun w => gridAlpha2.map fun c => c :: w
+def gridInputs2 : List String :=
+  ((List.range 5).flatMap gridM).filter (·.contains '\\') |>.map String.ofList
+
+def witnesses : List String :=
+  ["\"\\\\\\\n\n\"", "$(\\\\\\\n\n)", "$(cat <<E\n\\\\\n\nE\n)", "<()<\\", "<()<\\\nb",
+   "a<\\\nb", "a<\\", "a &\\", "$\\", "$(A)\\", "a;\\"]
+
+/-- the first version of the text relation -/
+def textRelOld (sl v r : Str) : Bool :=
+  Spec.stripContinuations sl == Spec.stripContinuations v ++ r &&
+    (Spec.hasContinuation sl || sl == v ++ r)
+
+/-- does the first token of the input satisfy the first version of the relation? -/
+def oldOK (s : String) : Bool :=
+  let env : Env := { tape := Tape.ofInput s.toList }
+  match (do let t ← nextToken; let line ← tapeLine; pure (t, line) : M (Token × Str)).run {} env with
+  | (.ok ((t, line), _), _) =>
+    (match t.value, t.pos with
+     | .str v, some (a, e) =>
+       (residues (!(v.all Spec.isBreakChar)) line e).any (textRelOld (Str.slice line a e) v)
+     | _, _ => true)
+  | _ => true
+
+#eval report gridInputs2
+#eval report witnesses
+-- the first version fails on the first four witnesses: [false, false, false, false]
+#eval (witnesses.take 4).map oldOK
 
 end Bashlex.C04
